@@ -167,7 +167,7 @@ End Route.
    at most the Connection option "close" *)
 Lemma transport_hdr_is_wire x r : wire_ok (q_hdr r) (transport_hdr x r).
 Proof.
-  unfold transport_hdr.
+  unfold transport_hdr, transport_hdr0.
   set (h := q_hdr r).
   set (h1 := filter (fun kv => negb (mem (fst kv) excluded_on_write)) h).
   set (h2 := raw_set k_host [q_host r] h1).
@@ -201,14 +201,20 @@ Proof.
     unfold h5. destruct gz; [rewrite raw_get_set_other by exact Hae; exact E4 | exact E4]. }
   assert (C5 : raw_values k_connection h5 = raw_values k_connection h).
   { unfold raw_values. rewrite G5; [reflexivity | reflexivity | discriminate]. }
-  split.
-  - destruct (q_close r && negb (has_token (raw_values k_connection h5) (b "close"))).
-    + rewrite raw_get_set_other by discriminate. apply G5; [reflexivity | discriminate].
-    + apply G5; [reflexivity | discriminate].
-  - intros v Hv.
-    destruct (q_close r && negb (has_token (raw_values k_connection h5) (b "close"))).
-    + unfold raw_values in Hv at 1. rewrite raw_get_set_same in Hv. destruct Hv as [<-|Hv].
-      * right. reflexivity.
-      * left. rewrite <- C5. exact Hv.
-    + left. rewrite <- C5. exact Hv.
+  assert (W6 : wire_ok h (if q_close r && negb (has_token (raw_values k_connection h5) (b "close"))
+                          then raw_set k_connection (b "close" :: raw_values k_connection h5) h5 else h5)).
+  { split.
+    - destruct (q_close r && negb (has_token (raw_values k_connection h5) (b "close"))).
+      + rewrite raw_get_set_other by discriminate. apply G5; [reflexivity | discriminate].
+      + apply G5; [reflexivity | discriminate].
+    - intros v Hv.
+      destruct (q_close r && negb (has_token (raw_values k_connection h5) (b "close"))).
+      + unfold raw_values in Hv at 1. rewrite raw_get_set_same in Hv. destruct Hv as [<-|Hv].
+        * right. reflexivity.
+        * left. rewrite <- C5. exact Hv.
+      + left. rewrite <- C5. exact Hv. }
+  destruct (trailer_decl _ _) as [|k0 ks]; [exact W6|].
+  destruct W6 as [A B]. split.
+  - rewrite raw_get_set_other by discriminate. exact A.
+  - intros v Hv. apply B. unfold raw_values in Hv |- *. rewrite raw_get_set_other in Hv by discriminate. exact Hv.
 Qed.
